@@ -7,6 +7,7 @@ import (
 	"fmt"
 	"net/netip"
 	"os"
+	"reflect"
 	"strings"
 	"sync"
 	"time"
@@ -285,6 +286,13 @@ func (n *networkService) AllocIP(ctx context.Context, r *rpc.AllocIPRequest) (*r
 
 	err = n.resourceDB.Put(podID, newRes)
 	if err != nil {
+		// nothing records what this request took, so neither DEL nor GC could ever free it: hand it back.
+		// An allocation that the record of an earlier ADD names stays with the pod.
+		if !reflect.DeepEqual(oldRes.Resources, networkResource) {
+			_ = n.eniMgr.Release(ctx, cni, &eni.ReleaseRequest{
+				NetworkResources: resp,
+			})
+		}
 		return nil, err
 	}
 
